@@ -102,19 +102,33 @@ def emailDocumented (nonLocal : Bool) (addr : Str) (localOk : Option Bool) (idna
 
 /-! ### URL validators: the documented predicate over the parsed parts -/
 
+/-- "Restrict URLs to just this sequence of named schemes, or allow all schemes with ('*',)":
+    the docstring names exactly the one-item sequence `('*',)` as the wildcard (so `('*', 'x')` is a
+    restriction to the two names `*` and `x`); otherwise "blocked_scheme: emitted if the URL
+    `scheme:` is not present in `allowed_schemes`" — membership, also for the empty scheme of a
+    scheme-relative URL when `''` is listed.  With the wildcard every *scheme* is allowed; a URL
+    without a scheme has none to allow. -/
+def schemeAllowed (allowedSchemes : List Str) (scheme : Str) : Bool :=
+  if allowedSchemes == [['*']] then scheme != [] else allowedSchemes.contains scheme
+
 /-- URLValidator, from its docstring.  The URL (the value without surrounding white space) must be
     parseable ("bad_format: emitted for an unparseable URL"); its `scheme:` must be present in
-    `allowed_schemes` — every scheme is, with `('*',)`, but a URL without a scheme has none to
-    allow; and it must have no component (non-empty part) that is not present in
-    `allowed_parts`. -/
+    `allowed_schemes` (`schemeAllowed`); and it must have no component (non-empty part) that is not
+    present in `allowed_parts`. -/
 def urlDocumented (allowedSchemes allowedParts : List Str) (r : ParseResult) : Option Bool :=
   match r with
   | .missing => none
   | .raises _ => some false
   | .ok p =>
-    some (p.six.scheme != [] &&
-          (allowedSchemes == [['*']] || allowedSchemes.contains p.six.scheme) &&
+    some (schemeAllowed allowedSchemes p.six.scheme &&
           UrlPart.all.all (fun part => p.six.get part == [] || allowedParts.contains part.name))
+
+/-- class of KF-C15-g: the URL has no scheme and `''` is one of the listed `allowed_schemes` — the
+    docstring's membership test allows it, the code blocks every scheme-less URL -/
+def emptySchemeListed (allowedSchemes : List Str) (r : ParseResult) : Bool :=
+  match r with
+  | .ok p => p.six.scheme == [] && allowedSchemes != [['*']] && allowedSchemes.contains []
+  | _ => false
 
 /-- the part names of `urlparse`'s vocabulary for HTTP-like URLs -/
 def httpVocabulary : List Str :=
@@ -132,13 +146,20 @@ def partTable (p : Parsed) : List (Str × PartVal) :=
    ("port".toList, match p.port with
       | .raises => .raises | .none => .none | .int i => .str (intStr i))]
 
+/-- **"the URL has the part"** — stated once, for all ten names and for both mappings: the part
+    has a non-empty value.  ("required_part: emitted if URL is *missing* a part", "forbidden_part:
+    emitted if URL *contains* a part".)  The six tuple items of a parse result are `''` when the URL
+    does not have them, the derived attributes `None` (or `''`: `http://@h/` has no user name). -/
+def partPresent : PartVal → Bool
+  | .str s => s != []
+  | _ => false
+
 /-- "If value is True, the part is required.  The value may also be a sequence of strings; the
-    value of the part must be present in this collection to validate." -/
+    value of the part must be present in this collection to validate."  An empty collection has no
+    member, so nothing validates against it.  (`False` / `None`: no rule.) -/
 def requiredHolds (rule : Option PartRule) (part : PartVal) : Bool :=
   match rule, part with
-  | some .always, .str _ => true
-  | some .always, _ => false
-  | some (.oneOf []), _ => true                 -- an empty collection names nothing: no rule
+  | some .always, v => partPresent v
   | some (.oneOf l), .str s => l.contains s
   | some (.oneOf _), _ => false
   | _, _ => true
@@ -147,9 +168,27 @@ def requiredHolds (rule : Option PartRule) (part : PartVal) : Bool :=
     sequence of strings; the value of the part must not be present in this collection." -/
 def forbiddenHolds (rule : Option PartRule) (part : PartVal) : Bool :=
   match rule, part with
-  | some .always, .str s => s == []             -- the URL does not have the part
+  | some .always, v => !partPresent v
   | some (.oneOf l), .str s => !l.contains s
   | _, _ => true
+
+/-- class of KF-C15-c (one part): a `True` entry of `required_parts` on a part whose value is the
+    empty text — the code tests `value is None`, so the rule cannot fail there (and never fails
+    on the six tuple parts) -/
+def requiredTrueOnEmpty (rule : Option PartRule) (part : PartVal) : Bool :=
+  rule == some .always && part == .str []
+
+/-- class of KF-C15-d (one part): an empty collection as `required_parts` entry — the code's
+    `elif required:` skips it -/
+def requiredEmptyCollection (rule : Option PartRule) (part : PartVal) : Bool :=
+  rule == some (.oneOf []) && part != .raises
+
+/-- some known part of the URL is in the class of KF-C15-c / KF-C15-d -/
+def httpQuirk (allParts : List Str) (required : List (Str × PartRule)) (table : List (Str × PartVal)) :
+    Bool :=
+  allParts.any (fun k => match table.lookup k with
+    | some v => requiredTrueOnEmpty (required.lookup k) v || requiredEmptyCollection (required.lookup k) v
+    | none => false)
 
 /-- HTTPURLValidator, from its docstring, for a URL that parses: every known part (`all_parts`)
     is readable, satisfies its entry of `required_parts` and does not violate its entry of
@@ -182,9 +221,10 @@ def keptParts (discardParts : List Str) (u : Six) : Six :=
   { scheme := keep .scheme, netloc := keep .netloc, path := keep .path,
     params := keep .params, query := keep .query, fragment := keep .fragment }
 
-/-- URLCanonicalizer, from its docstring: "Given a valid URL, re-writes it with unwanted parts
-    removed" — true unless the URL is unparseable; nothing to do without a value or without
-    unwanted parts.  No promise for part names outside the six-name vocabulary. -/
+/-- URLCanonicalizer, from its docstring, the VERDICT: "Given a valid URL, re-writes it with
+    unwanted parts removed" / "bad_format: emitted for an unparseable URL" — true unless the URL is
+    unparseable; nothing to do without a value or without unwanted parts.  No promise for part names
+    outside the six-name vocabulary.  (What is promised about the RESULT is `canonFaithful`.) -/
 def canonDocumented (discardParts : List Str) (value : Option Str) (lib : UrlLib) : Option Bool :=
   if discardParts.isEmpty then some true
   else match value with
@@ -198,6 +238,30 @@ def canonDocumented (discardParts : List Str) (value : Option Str) (lib : UrlLib
         else match lib.urlunparse (keptParts discardParts p.six) with
           | .ok _ => some true
           | .error _ => none                     -- a stand-in `urlunparse` that raises
+
+/-- URLCanonicalizer, from its docstring, the RESULT: "re-writes it with unwanted parts removed" —
+    the URL the element holds afterwards (`r`), read as a URL again, (a) has none of the discarded
+    parts and (b) has every other part exactly as the original had it.  `none`: no promise (no text
+    value, unparseable, names outside the vocabulary, a `urlunparse` that raises or returns something
+    that is not text, or no parse entry for `r`). -/
+def canonFaithful (discardParts : List Str) (value : Val) (lib : UrlLib) : Option Bool :=
+  if discardParts.isEmpty then none
+  else if !discardParts.all (fun k => (UrlPart.all.map UrlPart.name).contains k) then none
+  else match value with
+    | .str url =>
+      match lib.urlparse url with
+      | .ok p =>
+        (match lib.urlunparse (keptParts discardParts p.six) with
+         | .ok (.str r) =>
+           (match lib.urlparse r with
+            | .ok p' => some (UrlPart.all.all (fun part =>
+                if discardParts.contains part.name then p'.six.get part == []      -- (a)
+                else p'.six.get part == p.six.get part))                           -- (b)
+            | .raises _ => some false
+            | .missing => none)
+         | _ => none)
+      | _ => none
+    | _ => none
 
 /-- the value URLCanonicalizer leaves behind: the rebuild of the kept parts when it succeeds -/
 def canonValue (discardParts : List Str) (value : Val) (lib : UrlLib) : Val :=
@@ -318,5 +382,44 @@ def httpNoValue (v : V) (e : View) (d : Bool) : Bool :=
   match v with
   | .httpURL _ _ _ => e.value == .none && !d
   | _ => false
+
+/-- **the open findings as one class**: the (validator, view, promised verdict) triples on which
+    the code is known not to decide the docstring's predicate —
+    KF-C15-a (`HTTPURLValidator`, no value, promised False),
+    KF-C15-c / -d (`httpQuirk`: a `True` entry of `required_parts` on a part that is the empty
+    text; an empty collection as entry),
+    KF-C15-g (`URLValidator`: no scheme, `''` listed in `allowed_schemes`, promised True).
+    `decides_partial` proves the property for everything outside this class. -/
+def excluded (v : V) (e : View) (d : Bool) : Bool :=
+  match v with
+  | .httpURL ap req _ =>
+    match e.value with
+    | .none => !d
+    | .str url =>
+      (match e.lib.urlparse url with
+       | .ok p => httpQuirk ap req (partTable p)
+       | _ => false)
+    | _ => false
+  | .urlValidator s _ =>
+    match e.value with
+    | .str value => d && emptySchemeListed s (e.lib.urlparse (pyStrip value))
+    | _ => false
+  | _ => false
+
+/-- the values the URL validators are documented for ("Given a valid URL …"): a text, or no value.
+    `HTTPURLValidator` and `URLCanonicalizer` hand anything else to `urlparse` as it is (a falsy
+    number or `b''` is parsed as bytes — `URLCanonicalizer` then stores `b''` in the element — any
+    other number raises AttributeError); the model does not follow them there
+    (`Raise.unsupported`), and the theorems about them carry `textOrNone` as a hypothesis. -/
+def textOrNone : Val → Bool
+  | .none => true
+  | .str _ => true
+  | _ => false
+
+def inModel (v : V) (e : View) : Bool :=
+  match v with
+  | .httpURL _ _ _ => textOrNone e.value
+  | .urlCanonicalizer _ => textOrNone e.value
+  | _ => true
 
 end Flatland.C15.Spec
